@@ -13,12 +13,14 @@
 package reconfig
 
 import (
+	"bytes"
 	"context"
 	"errors"
 	"fmt"
 	"os"
 	"path/filepath"
 	"reflect"
+	"runtime"
 	"sort"
 	"strconv"
 	"sync"
@@ -272,11 +274,33 @@ type world struct {
 	broken  bool
 }
 
-// startDelay is how long opening a capture source takes.  Opening a real AF_PACKET ring takes
-// milliseconds; with a zero delay a restarted capture can be torn down by the error-logging goroutine
-// of its predecessor (Manager.logErrors looks the capture up by interface name) - the restart-stress
-// schedules use that, all other schedules run with a small delay so that they are deterministic.
-var startDelay = 3 * time.Millisecond
+// keepErrorLoggers selects how Manager.Update is called.  For every capture it starts, the manager
+// spawns a goroutine (Manager.logErrors) that tears the capture of that interface *name* down when
+// the capture's error channel closes - also when the capture was stopped by a later Update and a
+// successor already runs under the same name.  Whether the successor is hit depends on goroutine
+// scheduling.  The regular schedules take this race out: each Update gets its own context, which is
+// cancelled after the call (the goroutines' only other exit) and the harness waits until they are
+// gone, so that every schedule is deterministic.  The restart-stress schedules keep the goroutines
+// (background context, as goProbe does) and probe the race opportunistically.
+var keepErrorLoggers = false
+
+// waitNoErrorLoggers waits until no logErrors goroutine of this manager is left (they are found in
+// the goroutine dump by function name and receiver address).
+func (w *world) waitNoErrorLoggers() {
+	needle := fmt.Sprintf("(*Manager).logErrors(%p", w.mgr)
+	buf := make([]byte, 1<<20)
+	for k := 0; k < 400; k++ {
+		n := runtime.Stack(buf, true)
+		for n == len(buf) && len(buf) < 64<<20 {
+			buf = make([]byte, 2*len(buf))
+			n = runtime.Stack(buf, true)
+		}
+		if !bytes.Contains(buf[:n], []byte(needle)) {
+			return
+		}
+		time.Sleep(250 * time.Microsecond)
+	}
+}
 
 func newWorld() (*world, error) {
 	dir, err := os.MkdirTemp("", "verif-rc-db-")
@@ -287,9 +311,6 @@ func newWorld() (*world, error) {
 		started: map[string]Param{}, starts: map[string]int{}}
 	h := &windowHandler{inner: writeout.NewGoDBHandler(dir, encoders.EncoderTypeLZ4), w: w, ts: T0}
 	w.mgr = gpcapture.NewManager(h, gpcapture.WithSourceInitFn(func(c *gpcapture.Capture) (slimcap.SourceZeroCopy, error) {
-		if startDelay > 0 {
-			time.Sleep(startDelay)
-		}
 		s := newScriptedSource(c.Iface())
 		p, err := captureParams(c)
 		if err != nil {
@@ -382,14 +403,23 @@ func (w *world) update(c Cfg, win []string) (err error, panicked string, hung bo
 	w.mu.Lock()
 	w.window, w.winSent, w.winErr = win, map[string]bool{}, nil
 	w.mu.Unlock()
+	ctx, cancel := context.WithCancel(context.Background())
 	done := make(chan string, 1)
 	go func() {
-		done <- hx.Catch(func() { _, _, _, err = w.mgr.Update(context.Background(), c.concrete()) })
+		done <- hx.Catch(func() { _, _, _, err = w.mgr.Update(ctx, c.concrete()) })
 	}()
 	select {
 	case panicked = <-done:
 	case <-time.After(stepTimeout):
 		hung = true
+	}
+	if keepErrorLoggers {
+		_ = cancel // the context lives as long as the process, as in goProbe
+	} else {
+		cancel()
+		if panicked == "" && !hung {
+			w.waitNoErrorLoggers()
+		}
 	}
 	w.mu.Lock()
 	sentInWindow = w.winSent
